@@ -23,6 +23,7 @@ ENTRY = dict(
                    "order to the machine's nondeterministic moves; the theorems hold for every order).",
         clauses={
             "callbacks awaited in subscription order, value threaded, None keeps it": "theorem (dispatch_order_and_threading, plain_entries_awaited, snapshot_is_live_list)",
+            "the only entries a dispatch passes without awaiting are once-wrappers that had been unsubscribed": "theorem (skipped_entry_was_removed: under every schedule a skipped snapshot entry is a once-wrapper AND is recorded as removed from its live list — invariant InvK in Proofs/EventsK.lean; live_entry_awaited: in ANY state a dispatch that reaches a plain entry, or a once-wrapper still in the live list, awaits it with the current value; snapshot_entry_awaited_or_removed: a finished dispatch awaited every entry of its snapshot or the entry had been removed) — a machine that never awaits subscribe_once callbacks does not satisfy these",
             "then stores the final value and wakes every waiter": "theorem (finish_stores_and_wakes, dispatch_order_and_threading)",
             "a getter never returns a value that was not the outcome of some dispatch": "theorem (data_is_outcome_of_a_dispatch)",
             "returns immediately once a value exists": "theorem (get_returns_at_once)",
@@ -31,6 +32,8 @@ ENTRY = dict(
             "an unsubscribed callback is awaited by no later dispatch, every interleaving": "theorem (unsubscribed_not_called_by_later_dispatch, unsubscribed_once_not_called_by_later_dispatch)",
             "the statement as a judge over observations (C13.spec: threading, order, once, stored, getters)": "theorem (C13.holds: every observation of the machine, any scripts, any history of calls / releases / loop runs / clock moves, satisfies C13.spec; clause theorems threading_holds, order_holds, once_holds, stored_holds, getters_hold) + the same executable predicate judged by the Lean driver (c13judge) on every observation of the real EventManager",
             "subscribers registered through filter factories: each is handed the value returned by the previous one": "theorem (Props/C13Filter.lean over Model/FilterChain.lean: filter_result — for every filter expression (chains of any depth), every state and every wrapped callback a filter call returns the callback's result on what it delivered and None when it does not deliver; delivering_call_is_the_callback; passing_filter_is_transparent; skipping_call_keeps; dispatch_threading; passing_chain_is_plain_chain — behind pass-through filters that let the value through the stored value is that of the plain callbacks' chain) + correspondence (driver ops c13fr / c13chain vs real filter objects and a real EventManager: every factory, chains of two and three, callbacks returning None / value+c / falsy replacements, get() after every dispatch) + statement-level judge on the implementation's own log; custom_returns_result (custom() dropped the result before fix dfda3f3)",
+            "the TIGHTENED judge C13.specT = spec + onceDue (a once registration nobody unsubscribed, followed by a finished dispatch of its name, is awaited) + orderT (the snapshot moment is no later than the loop run in which the dispatch is first seen started) + gettersT (a returned value is the outcome of a dispatch finished in the snapshot in which the getter is first seen returned)": "judged by the Lean driver on every observation of the real EventManager (c13judge) AND on the machine's own observation of every generated history (c13self: all pass); `decide` examples: specT rejects the three observations of audit item 4 that spec accepts; the all-histories theorem for the three added clauses (holds_tight_full) is STATED, NOT PROVED (holds_tight_partial = C13.holds for the spec conjunct) — missing: a ghost telling explicit unsubscribes from self-removals, the op index of a task's first run in MInv.started, per-snapshot done facts; and the driver's settle is fuel-bounded",
+            "dispatches of one name that never suspend take effect in the order they were issued": "statement-level oracle in the harness (several such dispatches finishing in one loop run: the stored value is the outcome of the last one issued) — asyncio's FIFO ready queue is exercised, not modelled; closes seeded C13-m9 (dispatch_nowait storing synchronously when nobody is subscribed: a dispatch without a task is recorded as such instead of aborting the harness)",
             "event_manager.py behaves as the machine": "correspondence (trace inclusion: schedule accepted, same invocation log, data, task states, waiter results and virtual times)",
         },
         public_routes=(
